@@ -2,7 +2,7 @@
 
 State carriers (DESIGN.md section 4, C10):
   (4) KrigingCalcul lazy graph   translators/C10_kcgraph.py -> coq/C10/gen/KCGraph.v ; generic theorem C10_lazy_coherent ;
-                                 obligation C10_kc_graph_ok ; histories on the real class vs a FRESH object
+                                 theorems C10_kc_graph_ok, C10_kc_coherent ; histories on the real class vs a FRESH object
   (5) VectorT copy-on-write      translators/C10_vectort.py -> coq/C10/gen/VectorTOps.v ; C10_cow_refines_values
   (1) RNG cell                   C10_rng_seeded ; bit-exact stream after random prefixes
   (2) covariance optimisation    translators/C10_optimpaths.py -> coq/C10/gen/OptimPaths.v ; C10_optim_balanced
@@ -474,8 +474,8 @@ def carrier_kc(ctx, runner, exe):
     for key, fs in sorted(fail_keys.items()):
         if key not in witnesses:
             ctx.violation(key, 'condition of C10_lazy_coherent fails on the graph of KrigingCalcul.cpp (%d instance(s): %s) and no history exhibiting it was found; '
-                               'the obligation C10_kc_graph_ok cannot be discharged' % (len(fs), fs[:3]),
-                          {'failed_condition_instances': fs, 'theorem': 'coq/C10/Properties.v C10_kc_coherent_if_ok / obligation C10_kc_graph_ok'},
+                               'the theorem C10_kc_graph_ok does not check' % (len(fs), fs[:3]),
+                          {'failed_condition_instances': fs, 'theorem': 'coq/C10/Properties.v C10_kc_graph_ok / C10_kc_coherent'},
                           found_input=False)
     ctx.kc_fail_keys = fail_keys
     return found
@@ -701,10 +701,7 @@ def carrier_vectort(ctx, runner, exe):
         print('ERROR: members of VectorT used by the harness are not in the generated table any more: %s' % missing); sys.exit(3)
     ctx.cov['vt_failed_accessors'] = failed
     ctx.cov['vt_accessors'] = len(names)
-    # obligation: every accessor detaches before mutating / leaking
-    ctx.cov['obligations'] += 1; ctx.cov.setdefault('theorems', []).append('C10_vectort_ops_ok')
-    if not failed: ctx.cov['discharged'] += 1
-    else: ctx.level = 'partial'
+    if failed: ctx.level = 'partial'      # C10_vectort_ops_ok (Properties.v) cannot hold
     codes = sorted(VT_CODES)
     detaches = {}
     for o in tab['ops']:
@@ -753,7 +750,7 @@ def carrier_vectort(ctx, runner, exe):
         key = 'VectorT:%s-writes-shared-buffer' % a.replace('VectorT::', '').replace('VectorNumT::', '').replace(' ', '-').replace('/', '-')
         if key not in witnesses:
             ctx.violation(key, 'member %s changes or exposes the shared buffer without detaching and no program exhibiting it was found' % a,
-                          {'accessor': a, 'theorem': 'C10_cow_refines_values / obligation C10_vectort_ops_ok'}, found_input=False)
+                          {'accessor': a, 'theorem': 'C10_cow_refines_values / C10_vectort_ops_ok'}, found_input=False)
     # call sites of getVector()/getVectorPtr() in the library whose receiver may be shared
     sites = tab['sites']
     ctx.cov['vt_getVector_call_sites'] = [list(x) for x in sites]
@@ -940,9 +937,7 @@ def carrier_optim(ctx, runner, exe):
     failed = [(S(n), [EV[e] for e in w]) for n, w in mo[0]]
     ctx.cov['optim_functions'] = [t['name'] for t in tab]
     ctx.cov['optim_unbalanced_paths'] = failed
-    ctx.cov['obligations'] += 1; ctx.cov.setdefault('theorems', []).append('C10_optim_balanced')
-    if not failed: ctx.cov['discharged'] += 1
-    else: ctx.level = 'partial'
+    if failed: ctx.level = 'partial'      # C10_optim_balanced (Properties.v) cannot hold
     cases = load_corpus(ctx, 70)
     # directed: a failing evaluation, then a successful one
     for f1 in (0, 1):
@@ -987,7 +982,7 @@ def carrier_optim(ctx, runner, exe):
         key = '%s:leaves-optimization-cache' % name
         if key not in witnesses:
             ctx.violation(key, '%s has the exit path %s that leaves the optimisation cache prepared; no history exhibiting it was found' % (name, w),
-                          {'function': name, 'path': w, 'theorem': 'C10_optim_history_independent / obligation C10_optim_balanced'}, found_input=False)
+                          {'function': name, 'path': w, 'theorem': 'C10_optim_history_independent / C10_optim_balanced'}, found_input=False)
     return found
 
 # =====================================================================================================================
@@ -1059,6 +1054,45 @@ def carrier_krig(ctx, runner, exe):
             ctx.violation(key, 'the observed call gives another result after this prefix than in a fresh process', {'case': sx_str(cur), 'history': krig_pretty(cur)})
     return found
 
+def carrier_memo(ctx, runner, exe):
+    """ANeigh::select on a real NeighMoving against the memo model: ranks handed out and isUnchanged(), call by call"""
+    rng = ctx.rng; quick = ctx.quick()
+    cases = load_corpus(ctx, 81)
+    for _ in range(80 if quick else 1500):
+        n = rng.randint(3, 9)
+        pts = rng.sample([(x, y) for x in range(0, 7) for y in range(0, 7)], n)
+        dbin = [[dy(p[0]) for p in pts], [dy(p[1]) for p in pts], [dy(rng.randint(-3, 3)) for _ in pts]]
+        m = rng.randint(2, 5)
+        tp = [(rng.randint(0, 12) / 2, rng.randint(0, 12) / 2) for _ in range(m)]
+        if rng.random() < .5: tp[-1] = tp[0]          # two targets at the same place: same neighbourhood, _lhsinv reused
+        if rng.random() < .3: tp[1] = (40, 40)        # a target without any neighbour
+        dbout = [[dy(p[0]) for p in tp], [dy(p[1]) for p in tp], [[] for _ in tp]]
+        ts = []
+        for _ in range(rng.randint(2, 10)):
+            ts.append(ts[-1] if ts and rng.random() < .3 else rng.randrange(m))
+        cases.append([81, dbin, dbout, [rng.randint(2, 4), dy(rng.choice([2, 3, 5, 50]))], ts])
+    rc, impl = run_impl(ctx, exe, write_cases(ctx, 'memo', cases))
+    mcases = []
+    for c, r in zip(cases, impl):
+        tbl = r[1] if len(r) == 2 else []
+        mcases.append([81, tbl, c[4]])
+    _, model = run_model(ctx, runner, write_cases(ctx, 'memo_model', mcases))
+    found = False
+    for c, r, mo in zip(cases, impl, model):
+        if len(r) != 2:
+            ctx.violation('ANeigh::select:crash', 'the neighbourhood search crashes', {'case': sx_str(c)}); found = True; continue
+        for k, (got, want) in enumerate(zip(r[0], mo)):
+            ctx.count(sx_str([c[1], c[2], c[3], c[4][:k + 1]])[:2000], True)
+            fresh = dict((t, rk) for t, rk in r[1]).get(c[4][k])
+            if got[0] != fresh:
+                found = True
+                ctx.violation('ANeigh::select:memo-returns-another-neighbourhood', 'select(%d) after the targets %s hands out %s, a fresh object %s' % (c[4][k], c[4][:k], got[0], fresh),
+                              {'case': sx_str(c), 'call': k}); break
+            if got != want:
+                ctx.violation('model-drift:ANeigh::select', 'call %d: the object answers (ranks, isUnchanged) = %s, the memo model %s' % (k, got, want),
+                              {'case': sx_str(c), 'call': k, 'correspondence': 'coq/C10/ModelMemo.v select vs ANeigh::select'}, found_input=False); break
+    return found
+
 # =====================================================================================================================
 def translate_all(ctx):
     """regenerate coq/C10/gen/*.v from the sources; a translation error is a broken tie"""
@@ -1091,25 +1125,6 @@ def translate_all(ctx):
                           {'translator': 'translators/%s.py' % name, 'error': str(ex)}, found_input=False)
     return ok
 
-def graph_ok_obligation(ctx):
-    """the obligation C10_kc_graph_ok : conditions KCGraph = true, re-examined on every run (scratch file, full coqc)"""
-    d = os.path.join(VERIF, 'coq', 'scratch'); os.makedirs(d, exist_ok=True)
-    name = 'C10_graph_ok_%d' % os.getpid()
-    p = os.path.join(d, name + '.v')
-    with open(p, 'w') as f:
-        f.write('From Gst Require Import C10.Model C10.gen.KCGraph.\n'
-                'Theorem C10_kc_graph_ok : conditions KCGraph = true.\nProof. vm_compute. reflexivity. Qed.\n')
-    rc, o, e = sh(['coqc', '-Q', '.', 'Gst', 'scratch/%s.v' % name], cwd=os.path.join(VERIF, 'coq'), timeout=600)
-    for ext in ('.v', '.vo', '.vok', '.vos', '.glob'):
-        try: os.remove(os.path.join(d, name + ext))
-        except OSError: pass
-    try: os.remove(os.path.join(d, '.' + name + '.aux'))
-    except OSError: pass
-    ctx.cov['obligations'] += 1
-    ctx.cov.setdefault('theorems', []).append('C10_kc_graph_ok')
-    if rc == 0: ctx.cov['discharged'] += 1
-    return rc == 0
-
 def run(ctx):
     build_lib(ctx)
     tie_ok = translate_all(ctx)
@@ -1121,15 +1136,13 @@ def run(ctx):
             proof_break_violation(ctx, False); return
         print('ERROR: model runner or harness does not build'); sys.exit(3)
     found = False
-    kc_ok = graph_ok_obligation(ctx) if ctx.kc_tab is not None else False
     found |= carrier_kc(ctx, runner, exe)
     found |= carrier_vectort(ctx, runner, exe)
     found |= carrier_rng(ctx, runner, exe)
     found |= carrier_optim(ctx, runner, exe)
     found |= carrier_krig(ctx, runner, exe)
-    if not kc_ok and ctx.kc_tab is not None and not getattr(ctx, 'kc_fail_keys', None):
-        ctx.violation('proof-broken:C10_kc_graph_ok', 'conditions KCGraph = true does not check although no failed condition is listed', {}, found_input=False)
-    if not kc_ok: ctx.level = 'partial'
+    found |= carrier_memo(ctx, runner, exe)
+    if getattr(ctx, 'kc_fail_keys', None): ctx.level = 'partial'
     ctx.cov['rule'] = ('VectorT: a case is a program over 2-4 VectorDouble handles, compared after every statement with the copy-on-write model '
                        'and with independent values; RNG: a case is a sequence of seed/draw calls from a fresh process, compared bit-exactly; covariance cache: a '
                        'history of evalCovMatrix*Optim calls on one model, each compared with a fresh model; kriging: one call after a prefix vs in a fresh process. '
